@@ -2,9 +2,11 @@ package core
 
 import (
 	"encoding/hex"
+	"fmt"
 	"strings"
 	"testing"
 
+	"github.com/koron-go/z80"
 	"github.com/koron-go/z80/verifharness/eng"
 	"github.com/koron-go/z80/verifharness/ref"
 	"github.com/koron-go/z80/verifharness/stats"
@@ -188,4 +190,82 @@ func TestC14Pending(t *testing.T) {
 			}
 		}
 	})
+}
+
+// shortBus gives the model the bounds rule of a DumbMemory of length n.
+type shortBus struct {
+	m []uint8
+}
+
+func (s *shortBus) Read(a uint16) uint8 {
+	if int(a) >= len(s.m) {
+		return 0
+	}
+	return s.m[a]
+}
+func (s *shortBus) Write(a uint16, v uint8) {
+	if int(a) < len(s.m) {
+		s.m[a] = v
+	}
+}
+func (s *shortBus) In(uint8) uint8   { return 0 }
+func (s *shortBus) Out(uint8, uint8) {}
+
+// TestC14ShortMemory: opcode fetches count in R wherever they come from - also when PC is at or beyond
+// the end of a short DumbMemory (which reads as 0x00 there) or a prefix is the last byte of it.
+func TestC14ShortMemory(t *testing.T) {
+	col := stats.New("C14")
+	col.Sub = "shortmem"
+	defer finish(t, col)
+	if env.Shard != 0 {
+		return // deterministic enumeration: one shard does it
+	}
+	col.Rule = "shortmem: DumbMemory of length L in {0,1,2,3,100,0x8000,0xFFFF} with the last bytes set to {00, DD, FD, ED, CB, DD CB, 3E, 21, ED B0} patterns, PC from L-3 to L+2 (and 0xFFFF), all 256 R: " +
+		"three Steps each, R / I / PC compared with the reference model running under the same bounds rule"
+	tails := [][]uint8{{0x00}, {0xDD}, {0xFD}, {0xED}, {0xCB}, {0xDD, 0xCB}, {0x3E}, {0x21}, {0xED, 0xB0}, {0xDD, 0x21}, {0xFD, 0xCB, 0x05}, {0x18}, {0x76}}
+	for _, L := range []int{0, 1, 2, 3, 100, 0x8000, 0xFFFF} {
+		for _, tail := range tails {
+			for dpc := -3; dpc <= 2; dpc++ {
+				pc := L + dpc
+				if pc < 0 || pc > 0xFFFF {
+					continue
+				}
+				for r0 := 0; r0 < 256; r0++ {
+					dm := make(z80.DumbMemory, L)
+					mm := make([]uint8, L)
+					for i := range tail {
+						if at := L - len(tail) + i; at >= 0 {
+							dm[at], mm[at] = tail[i], tail[i]
+						}
+					}
+					cpu := z80.CPU{Memory: dm}
+					cpu.PC, cpu.SP, cpu.IR.Lo, cpu.IR.Hi = uint16(pc), 0x7000, uint8(r0), 0x3C
+					cpu.BC.SetU16(2)
+					st := eng.FromCPU(&cpu)
+					sb := &shortBus{m: mm}
+					for s := 0; s < 3; s++ {
+						in := ref.Step(&st, sb)
+						if !in.Implemented {
+							break
+						}
+						if p := eng.SafeStep(&cpu); p != nil {
+							break // C12's business
+						}
+						col.Eval(1)
+						ok := cpu.IR.Lo == st.R || (in.RAlt && cpu.IR.Lo == (st.R&0x80|(st.R+1)&0x7f))
+						if !ok || cpu.IR.Hi != st.I || cpu.PC != st.PC {
+							c := map[string]any{"len": L, "tail": toInts(tail), "pc": pc, "r": r0, "step": s + 1}
+							violation(t, "C14", "shortmem", c, "fetch-count rule on a short DumbMemory",
+								fmt.Sprintf("DumbMemory len %#x tail % x PC=%04x R=%02x Step %d (%s): R=%02x I=%02x PC=%04x want R=%02x I=%02x PC=%04x",
+									L, tail, pc, r0, s+1, in.Class, cpu.IR.Lo, cpu.IR.Hi, cpu.PC, st.R, st.I, st.PC))
+						}
+						st.R = cpu.IR.Lo
+					}
+				}
+				col.DistinctN(256)
+			}
+		}
+		_ = tails
+	}
+	col.Sample(1, map[string]any{"len": 2, "tail": []int{0xDD, 0xCB}, "pc": 0, "r": 0x7E})
 }
